@@ -240,6 +240,7 @@ func ruleBounds(p *Prog, r *Report) {
 	} else {
 		r.fail("R20.2b", "anchor|nsx ParseConfig", "", "not found", "")
 	}
+	ruleLookupListsNonEmpty(p, r)
 	ruleNSXSingletons(p, r, []string{"nsx.nsxRule.SourceGroups", "nsx.nsxRule.DestinationGroups", "nsx.nsxRule.Services", "nsx.nsxGroup.Expression"})
 }
 
@@ -879,5 +880,144 @@ func ruleNSXSingletons(p *Prog, r *Report, fields []string) {
 		}
 		r.add("R20.2d", "singleton-checked|"+f, p.pos(fn.Pos()), "a "+f+" without elements is rejected by checkConfigValidity", st == "ok",
 			"the planner's "+f+"[0] (class I5 of the bounds audit) panics on such input: "+st)
+	}
+}
+
+// ---- R20.2e: invariant I1 (lists stored in an objLookup are non-empty) ----
+
+type lookupStore struct {
+	Fn    *ssa.Function
+	In    *ssa.MapUpdate
+	Class string // APPEND>=1 | LITERAL>=1 | RESLICE[0:k] | FROM-LOOKUP | OTHER:<desc>
+}
+
+func lookupStores(p *Prog) []lookupStore {
+	var out []lookupStore
+	for _, fn := range allModFuncs(p) {
+		if pkgOfFunc(fn) != "cisco" || fn.Synthetic != "" {
+			continue
+		}
+		for _, b := range fn.Blocks {
+			for _, in := range b.Instrs {
+				mu, ok := in.(*ssa.MapUpdate)
+				if !ok {
+					continue
+				}
+				mt, ok := mu.Map.Type().Underlying().(*types.Map)
+				if !ok || typeShort(mt.Elem()) != "[]*cisco.cmd" || typeShort(mt.Key()) != "string" {
+					continue
+				}
+				out = append(out, lookupStore{fn, mu, classifyListValue(mu.Value, 0)})
+			}
+		}
+	}
+	return out
+}
+
+func classifyListValue(v ssa.Value, d int) string {
+	if d > 4 {
+		return "OTHER:deep"
+	}
+	switch x := v.(type) {
+	case *ssa.Call:
+		if b, ok := x.Common().Value.(*ssa.Builtin); ok && b.Name() == "append" {
+			args := x.Common().Args
+			// append(x, e...) : second arg is a slice; literal with >= 1 element is explicit growth
+			if len(args) == 2 {
+				if el, ok := sliceLitElems(args[1]); ok && len(el) >= 1 {
+					return "APPEND>=1"
+				}
+			}
+			if el, ok := sliceLitElems(args[0]); ok && len(el) >= 1 {
+				return "APPEND>=1"
+			}
+			// append(a, b...) of two lists: non-empty if either is
+			ca := classifyListValue(args[0], d+1)
+			if !strings.HasPrefix(ca, "OTHER") {
+				return ca
+			}
+			if len(args) == 2 {
+				cb := classifyListValue(args[1], d+1)
+				if !strings.HasPrefix(cb, "OTHER") {
+					return cb
+				}
+			}
+			return "OTHER:append(" + descValue(args[0], 0) + ", ...)"
+		}
+	case *ssa.Slice:
+		if el, ok := sliceLitElems(x); ok {
+			if len(el) >= 1 {
+				return "LITERAL>=1"
+			}
+			return "OTHER:empty literal"
+		}
+		if x.High != nil {
+			if k, ok := constInt(x.High); ok && k >= 1 {
+				lo := int64(0)
+				if x.Low != nil {
+					lo, _ = constInt(x.Low)
+				}
+				if k-lo >= 1 {
+					return fmt.Sprintf("RESLICE[%d:%d]", lo, k)
+				}
+			}
+		}
+	case *ssa.Lookup:
+		if mt, ok := x.X.Type().Underlying().(*types.Map); ok && typeShort(mt.Elem()) == "[]*cisco.cmd" && !x.CommaOk {
+			return "OTHER:lookup (may be missing)"
+		}
+	}
+	return "OTHER:" + descValue(v, 0)
+}
+
+func init() {
+	dumpers["lookupstores"] = func(p *Prog, m *Model) {
+		for _, s := range lookupStores(p) {
+			fmt.Printf("%s\t%s\t# %s\n", fnDisplay(s.Fn), s.Class, p.ipos(s.In))
+		}
+	}
+}
+
+func ruleLookupListsNonEmpty(p *Prog, r *Report) {
+	r.rule("R20.2e", "Invariant I1 (lists stored under a name in a Cisco objLookup are non-empty — 33 audited bounds obligations index [0] on its strength): every store into a map[string][]*cmd in package cisco stores a value that is non-empty by its form (append with at least one explicit element, slice literal with elements, constant re-slice [0:k]) or is an audited row of tables/nonempty_audit.tsv (function, value form and controlling conditions, compared as a multiset).")
+	want := map[string][]string{}
+	why := map[string]string{}
+	for _, row := range readTable("nonempty_audit.tsv", 3) {
+		want[row[0]] = append(want[row[0]], row[1])
+		why[row[0]+"|"+row[1]] = row[2]
+	}
+	n := 0
+	for _, s := range lookupStores(p) {
+		n++
+		name := fnDisplay(s.Fn)
+		if !strings.HasPrefix(s.Class, "OTHER") {
+			r.ok("R20.2e", "lookup-store|"+name+"|"+s.Class, p.ipos(s.In), "stored list is non-empty by its form: "+s.Class)
+			continue
+		}
+		sig := s.Class + " @ " + strings.Join(guardSet(s.In), " && ")
+		idx := -1
+		for i, w := range want[name] {
+			if w == sig {
+				idx = i
+			}
+		}
+		if idx >= 0 {
+			want[name] = append(want[name][:idx], want[name][idx+1:]...)
+			r.ok("R20.2e", "lookup-store|"+name+"|"+sig, p.ipos(s.In), "audited: "+why[name+"|"+sig])
+		} else {
+			r.fail("R20.2e", "lookup-store|"+name+"|"+sig, p.ipos(s.In), "a list whose non-emptiness is neither evident from its form nor audited is stored into a lookup map",
+				"an empty list under a name breaks invariant I1: every later l[0] on that name panics (not in tables/nonempty_audit.tsv)")
+		}
+	}
+	r.floor("R20.2e", "stores into map[string][]*cmd in package cisco", n, 12)
+}
+
+func init() {
+	dumpers["nonemptyrows"] = func(p *Prog, m *Model) {
+		for _, s := range lookupStores(p) {
+			if strings.HasPrefix(s.Class, "OTHER") {
+				fmt.Printf("%s\t%s @ %s\tREASON\t# %s\n", fnDisplay(s.Fn), s.Class, strings.Join(guardSet(s.In), " && "), p.ipos(s.In))
+			}
+		}
 	}
 }
